@@ -1,6 +1,7 @@
 import Victron.Gen.Tables
 import Victron.Model.Api
 import Victron.Proofs.Hex
+import Victron.Proofs.Text
 import Victron.Props.C14
 /-
   C09 — Register values are scaled and decoded exactly as the register defines.
@@ -38,6 +39,22 @@ theorem number_signed_bad_width (tr : Transport) (r : Reg) (bs : Bytes) (hs : r.
 theorem text_value (tr : Transport) (r : Reg) (bs : Bytes) (hg : tr.get r.address = .ok bs) :
     readText tr r = .ok (.text (trimSpace (trimNul bs))) := by
   simp [readText, hg, R.map', wrap]
+
+/-- what "trailing NUL padding and then surrounding white space removed" means, exactly: the device bytes are
+    `a ++ t ++ b ++ 0…0` with `a`, `b` strings of white-space runes (`unicode.IsSpace`, UTF-8 encoded), the part
+    in front of the padding does not end in NUL, and the value `t` neither starts nor ends with a white-space
+    rune; reading such a `t` back leaves it unchanged -/
+theorem text_shape (tr : Transport) (r : Reg) (bs : Bytes) (hg : tr.get r.address = .ok bs) :
+    ∃ t a b k, readText tr r = .ok (.text t) ∧ bs = (a ++ t ++ b) ++ List.replicate k 0 ∧
+      (a ++ t ++ b).getLast? ≠ some 0 ∧ IsSpaces a ∧ IsSpaces b ∧ NoLeadingSpace t ∧ NoTrailingSpace t ∧
+      trimSpace t = t := by
+  obtain ⟨k, hk, hlast⟩ := trimNul_spec bs
+  obtain ⟨a, b, ha, hb, hs, hl, ht⟩ := trimSpace_spec (trimNul bs)
+  refine ⟨trimSpace (trimNul bs), a, b, k, text_value tr r bs hg, ?_, ?_, ha, hb, hl, ht, trimSpace_idem _⟩
+  · rw [← hs]; exact hk
+  · rw [← hs]; exact hlast
+
+example : trimSpace (trimNul [32, 9, 72, 81, 32, 50, 0xC2, 0xA0, 0xE2, 0x80, 0x83, 0, 0]) = [72, 81, 32, 50] := by decide
 
 theorem leUint_lt (bs : Bytes) (h : IsBytes bs) : leUint bs < 2 ^ 64 := by
   have h8 : IsBytes (bs.take 8) := fun b hb => h b (List.mem_of_mem_take hb)
